@@ -54,6 +54,17 @@ structure Cache where
 def fetch (read : Read) (pos : Nat) (c : Cache) : Cache :=
   if pos < c.cs ∨ pos ≥ c.cs + c.chunk.length then ⟨pos, read pos⟩ else c
 
+/-- Fetch and decode at `pos` from a cache: `(look-ahead, size, new cache, end of input)`. -/
+def coreLook (read : Read) (pos : Nat) (c : Cache) : Int × Nat × Cache × Bool :=
+  let c := fetch read pos c
+  if c.chunk.isEmpty then (0, 1, c, true)
+  else
+    let r := decodeAt read (c.chunk.drop (pos - c.cs)) pos
+    let c' : Cache := match r.2.2 with
+      | some nc => ⟨pos, nc⟩
+      | none => c
+    (r.1, r.2.1, c', false)
+
 /-- The `(offset, code point, size)` sequence produced by the chunk logic of the lexer port alone
 (`fetch`, `decodeAt` with its retry, position += size; no ranges, no columns). -/
 def coreChars (read : Read) : Nat → Nat → Cache → List (Nat × Int × Nat)
